@@ -571,6 +571,15 @@ func aggregate(pr *PropRun) []*NamedResult {
 			}
 			continue
 		}
+		if o.Kind == "cover" {
+			// covered as soon as one path can satisfy the hypothesis
+			if o.Result.Status == "sat" {
+				nr.Status = "covered"
+			} else if nr.Status == "discharged" {
+				nr.Status = "never-covered"
+			}
+			continue
+		}
 		if o.Kind == "vacuity" {
 			switch o.Result.Status {
 			case "sat":
@@ -628,7 +637,7 @@ func writeEvidence(verifDir string, pr *PropRun, results []*NamedResult, violati
 	counts := map[string]int{}
 	var per []map[string]interface{}
 	for _, r := range results {
-		if r.Kind == "vacuity" || r.Kind == "finding" {
+		if r.Kind == "vacuity" || r.Kind == "finding" || r.Kind == "cover" {
 			continue
 		}
 		if r.Status == "unknown" && !contains(baselineNames, r.Name) {
